@@ -498,8 +498,11 @@ func (r *c11Run) exit() {
 			} else {
 				expect[a.addr] = tok
 			}
-			if left := r.shares(c.Ctx, a.addr, v); left.GTE(sdkmath.LegacyOneDec()) {
-				r.res.Violate("C11/undelegate-left-shares", "%s still has %s shares at %s after undelegating everything", a.label, left, v)
+			// undelegation is requested in whole tokens: what may stay behind is a share residue worth about one
+			// base unit, 1e-18 FX (the amount is computed by truncation and the SDK truncates again) (on a slashed validator that can be more than one share)
+			val, _ := c.App.StakingKeeper.GetValidator(c.Ctx, v)
+			if left := r.shares(c.Ctx, a.addr, v); val.TokensFromShares(left).GTE(sdkmath.LegacyNewDec(2)) {
+				r.res.Violate("C11/undelegate-left-shares", "%s still has %s shares (worth %s) at %s after undelegating everything", a.label, left, val.TokensFromShares(left), v)
 			}
 		}
 	}
